@@ -1104,6 +1104,19 @@ class Unit:
             r = self.models.member_call(self, n, me, base, ks[1:])
             if r is not None:
                 self.count_call(me['name']); return r
+        if cid is not None and cid in self.by_id and re.search(r'\)\s*const(\s+noexcept)?\s*$', self.by_id[cid].get('type', {}).get('qualType', '')) and len(ks) == 1:
+            # a const, argument-less member function of a unit class that is defined in another translation unit: an observer.
+            # It is declared with the trivial contract "any result, no side effect" and replaced by it in every target (listed as assumption).
+            rq, _, _ = fn_param_types(self.by_id[cid]['type']['qualType'])
+            if self.ctype(rq) in ('_Bool', 'int', 'unsigned int', 'size_t', 'long', 'unsigned long', 'uint64_t', 'int64_t', 'uint32_t'):
+                cn = self.func_cname(cid)
+                self.spec[('stub', cn)] = True
+                self.spec.setdefault(('contract', cn), '__CPROVER_requires(1)\n__CPROVER_assigns()\n__CPROVER_ensures(1)\n')
+                self.auto_stubs = getattr(self, 'auto_stubs', []); 
+                if cn not in self.auto_stubs: self.auto_stubs.append(cn)
+                b = self.expr(base); obj = b if me.get('isArrow') else self.addr_text(b)
+                self.need_func(cid); self.count_call(cn)
+                return '%s(%s)' % (cn, obj)
         raise Unsupported('method %s [%s]: not defined in the unit and not in the model table (in %s)' % (me.get('name'), self.func_cname(cid) if cid in self.by_id else 'decl outside the dumps', self.cur))
 
     def addr_text(self, b):
@@ -1392,6 +1405,14 @@ class Unit:
                 self.w(p + '}')
                 for (name, kk) in calls: self.ghost('after_call:%s:%d' % (name, kk), p)
                 c = t
+            if len(ks) == 2 and not pre and not post and self.pure_expr(ks[0]):
+                # an `if` whose body consisted only of dropped (log) calls and whose condition has no call/assignment: the whole
+                # statement has no effect and is dropped together with its condition (recorded under dropped_calls)
+                mark = len(self.out); self.w(p + 'if (%s)' % c); self.block(ks[1], ind)
+                body_lines = [l.strip() for l in self.out[mark + 1:]]
+                if body_lines and all(l in ('{', '}', ';', '((void)0);', '') for l in body_lines):
+                    del self.out[mark:]; self.dropped.append('if-statement around dropped calls only (in %s)' % self.cur)
+                return
             self.w(p + 'if (%s)' % c); self.block(ks[1], ind)
             if len(ks) > 2: self.w(p + 'else'); self.block(ks[2], ind)
         elif k == 'ReturnStmt':
@@ -1566,6 +1587,19 @@ class Unit:
         if k == 'ContinueStmt': return True
         if k in ('ForStmt', 'WhileStmt', 'DoStmt', 'CXXForRangeStmt'): return False
         return any(self.has_continue(c) for c in n.get('inner', []) if c.get('kind'))
+
+    def pure_expr(self, n):
+        if not isinstance(n, dict): return True
+        k = n.get('kind')
+        if k == 'CXXMemberCallExpr':
+            me = self.kids(n)[0]
+            while me.get('kind') in ('ParenExpr', 'ImplicitCastExpr'): me = self.kids(me)[0]
+            if me.get('name') in ('count', 'size', 'empty', 'c_str') and len(self.kids(n)) == 1: return self.pure_expr(self.kids(me)[0])     # const observers of modelled library types
+            return False
+        if k in ('CallExpr', 'CXXOperatorCallExpr', 'CXXConstructExpr', 'CXXNewExpr', 'CXXDeleteExpr', 'LambdaExpr', 'CompoundAssignOperator', 'CXXThrowExpr'): return False
+        if k == 'BinaryOperator' and n.get('opcode') in ('=', ','): return False
+        if k == 'UnaryOperator' and n.get('opcode') in ('++', '--'): return False
+        return all(self.pure_expr(c) for c in n.get('inner', []) or [])
 
     def loop_cond(self, cond):
         c = self.expr(cond)
